@@ -159,6 +159,15 @@ func runC27(c *Ctx) []Obligation {
 		{Prop: P, ID: "fracpow.power-of-root", Fn: "(types.BigDec).FracPow", Assume: []Lit{F(`^\(types\.BigDec\)\.IsZero\(power\)$`), F(`^nonnil\(\(types\.BigDec\)\.ApproxRoot\(d, conv<uint64>\(denominator\)\)#1\)$`)},
 			Target: RetNotMatch(0, `^\(types\.BigDec\)\.Power\(\(types\.BigDec\)\.ApproxRoot\(d, conv<uint64>\(denominator\)\)#0, `), Why: "the result is a power of the denominator-th root of the base itself"},
 	})...)
+	// ... and, FracPow being what it is today (the known finding above: failure becomes weight 1), the root
+	// extraction itself must have no way to fail on purpose: its only failure is the recovered overflow
+	out = append(out, c.Rows([]Row{
+		{Prop: P, ID: "approxroot.no-deliberate-failure-exit", Fn: "(types.BigDec).ApproxRoot",
+			Target: RetNotMatch(1, `^(nil|var:err|\(types\.BigDec\)\.ApproxRoot\(\(types\.BigDec\)\.MulInt64\(d, -1\), root\)#1)$`),
+			Why:    "every return of the root extraction reports success (or what the recursion on |d| reported): an added failure exit — an iteration cap, a precision check — is turned by FracPow into weight 1 for exactly the larger stakes"},
+		{Prop: P, ID: "approxroot.error-only-from-recover", Fn: "(types.BigDec).ApproxRoot",
+			Target: StoreTo(`^var:err$`), Why: "the function body never assigns its error result; only the deferred recovery does"},
+	})...)
 	// termination: loops in the callee closure inside package types
 	var roots []*ssa.Function
 	for _, n := range []string{rn, bn} {
